@@ -690,9 +690,9 @@ impl EGraph {
             self.report_level,
             context,
         )?;
-        if let Some(message) = self.panic_message.lock().unwrap().take() {
-            return Err(PanicError(message).into());
-        }
+        // A panicking rule stops matching early, but whatever was staged before the panic has
+        // already been merged. Restore canonicity before reporting the error.
+        let panic_message = self.panic_message.lock().unwrap().take();
 
         let mut iteration_report = IterationReport {
             rule_set_report,
@@ -705,6 +705,9 @@ impl EGraph {
             // Rebuilding is only necessary when new unions have been made because ids may need to be updated.
             // Adding terms doesn't necessarily touch the union-find, only doing a union between existing ids does.
             self.inc_ts();
+            if let Some(message) = panic_message {
+                return Err(PanicError(message).into());
+            }
             return Ok(iteration_report);
         }
 
@@ -712,6 +715,9 @@ impl EGraph {
         self.rebuild()?;
         iteration_report.rebuild_time = rebuild_timer.elapsed();
 
+        if let Some(message) = panic_message {
+            return Err(PanicError(message).into());
+        }
         if let Some(message) = self.panic_message.lock().unwrap().take() {
             return Err(PanicError(message).into());
         }
